@@ -89,6 +89,7 @@ type scope struct {
 
 	bucketCache *bucketCache
 	closed      atomic.Bool
+	closeMu     sync.Mutex
 	done        chan struct{}
 	wg          sync.WaitGroup
 	root        bool
@@ -521,6 +522,12 @@ func (s *scope) Snapshot() Snapshot {
 func (s *scope) Close() error {
 	// n.b. Once this flag is set, the next scope report will remove it from
 	//      the registry and clear its metrics.
+	//
+	// n.b. Concurrent callers are serialized, so that each of them returns
+	//      only once the shutdown performed by the first one is complete.
+	s.closeMu.Lock()
+	defer s.closeMu.Unlock()
+
 	if !s.closed.CAS(false, true) {
 		return nil
 	}
@@ -528,7 +535,12 @@ func (s *scope) Close() error {
 	close(s.done)
 
 	if s.root {
+		// Wait for the report loop to exit: a periodic pass that is still in
+		// flight finishes first, and none is running or can start once Close
+		// has returned. Only then run the final pass and release the registry.
+		s.wg.Wait()
 		s.reportRegistry()
+		s.registry.purgeIfRootClosed()
 		if closer, ok := s.baseReporter.(io.Closer); ok {
 			return closer.Close()
 		}
